@@ -18,3 +18,10 @@ CHECKS["C13"] = cfg(
     assumptions=["reference civil-date arithmetic (Howard Hinnant's days_from_civil) in the harness is correct",
                  "second=60 may be rejected or mapped to :59/:60"],
 )
+
+# Default entries for properties whose monitors are being built (not claimed in MANIFEST.json until enabled).
+for _pid in ["C%02d" % i for i in range(1, 21)]:
+    if _pid not in CHECKS:
+        CHECKS[_pid] = cfg(_pid, disabled=True)
+CHECKS["C09"]["level"] = "fault_enumeration"
+CHECKS["C05"]["death_is_violation"] = True
